@@ -80,12 +80,35 @@ fn skip_finished(t: &mut Turnstile) {
     }
 }
 
+type Observer = Box<dyn Fn() -> u64 + Send + Sync>;
+static OBSERVER: Mutex<Option<Observer>> = Mutex::new(None);
+static SAMPLES: Mutex<Vec<u64>> = Mutex::new(Vec::new());
+
+/// Install a read-only observer (it must not pass through hook points itself); it is sampled whenever a registered thread arrives at a hook point,
+/// i.e. between any two scheduled shared operations.
+pub fn set_observer(f: Observer) {
+    *OBSERVER.lock().unwrap_or_else(|e| e.into_inner()) = Some(f);
+    SAMPLES.lock().unwrap_or_else(|e| e.into_inner()).clear();
+}
+
+/// The values the observer returned, in the order sampled.
+pub fn take_samples() -> Vec<u64> {
+    std::mem::take(&mut *SAMPLES.lock().unwrap_or_else(|e| e.into_inner()))
+}
+
+fn sample() {
+    if let Some(f) = OBSERVER.lock().unwrap_or_else(|e| e.into_inner()).as_ref() {
+        SAMPLES.lock().unwrap_or_else(|e| e.into_inner()).push(f());
+    }
+}
+
 /// Called immediately before a labelled shared operation.
 #[inline]
 pub fn point(label: &'static str) {
     let Some(idx) = THREAD_INDEX.with(|t| t.get()) else {
         return;
     };
+    sample();
     let mut g = TURNSTILE.lock().unwrap_or_else(|e| e.into_inner());
     let deadline = std::time::Instant::now() + std::time::Duration::from_secs(5);
     loop {
